@@ -59,7 +59,8 @@ CORE_SMILES = [
 FILES = ['isomorphism.sdf', 'mcs.sdf', 'standardize.sdf', 'arenes.sdf', 'hbonds.sdf', 'depict.sdf', 'implicit.sdf',
          'morgan_ruiner.sdf', 'stereo.sdf', 'MR.rdf', 'ions.rdf', 'standardize.rdf', 'implicit.mrv', 'cycle.sdf']
 RXN_OBS = ['rxn_str', 'rxn_fmt_m', 'rxn_fmt_h', 'rxn_cgr', 'rxn_cgr_order', 'rxn_centers', 'rxn_canonicalize', 'rxn_standardize',
-           'rxn_kekule', 'rxn_thiele', 'rxn_members', 'rxn_clean_stereo', 'rxn_clean_isotopes', 'rxn_implicify_hydrogens',
+           'rxn_kekule', 'rxn_thiele', 'rxn_members', 'rxn_member_orders', 'rxn_member_atoms_order', 'rxn_member_mapping', 'rxn_hash_eq',
+           'rxn_clean_stereo', 'rxn_clean_isotopes', 'rxn_implicify_hydrogens',
            'rxn_explicify_hydrogens']
 RXN_SMILES = ['CCO.CC(=O)O>>CC(=O)OCC.O', '[CH3:1][CH2:2][OH:3].[CH3:4][C:5](=[O:6])[OH:7]>>[CH3:4][C:5](=[O:6])[O:3][CH2:2][CH3:1].[OH2:7]',
               'c1ccccc1.Cl>[Al](Cl)(Cl)Cl>Clc1ccccc1', 'C=C.C=CC=C>>C1CCC=CC1', 'CC(=O)C>>CC(O)=C', 'OC(=O)c1ccccc1.CN>>CNC(=O)c1ccccc1.O',
